@@ -321,6 +321,7 @@ func (a *sparseArrayObject) expand(idx uint32) bool {
 		}
 		if (bits.UintSize == 64 || idx < math.MaxInt32) && int(idx)>>3 < l {
 			//log.Println("Switching sparse->standard")
+			verifArrayTransition(a.val, false)
 			ar := &arrayObject{
 				baseObject:     a.baseObject,
 				length:         a.length,
